@@ -5,10 +5,14 @@
     twice and [unwrap()] on [None] are errors.  PARTIAL: the theorems cover RawLRU's public
     operations (put with its three paths, get/get_mut, peek, remove, remove_lru, purge, resize,
     Drop) for every history, the separation step for several lists in one heap with nodes in
-    flight between them, and SegmentedCache built on it (promotion, demotion, every history, Drop);
-    TwoQueueCache, AdaptiveCache and WTinyLFUCache are covered by the structural audit, the
-    poisoning allocator and the correspondence of the harness, not by a heap-level theorem. *)
-From VF Require Import Base Lru Slru SlruFacts Heap HeapFacts HeapOps HeapRun HeapPrim HeapFrame HeapMulti HeapSlruDef HeapSlru.
+    flight between them, and on top of it all four composite caches written over the heap-level
+    primitives as their Rust sources are written over RawLRU (SegmentedCache, TwoQueueCache,
+    AdaptiveCache, WTinyLFUCache: every operation of the Cache trait, every history, Drop), and the
+    iterators.  Not in the heap model: Clone, the per-segment accessors of the composite caches
+    (peek_lru_from_*, remove_lru_from_*, ...), resize of inner lists. *)
+From VF Require Import Base Iter Lru Slru TwoQ Arc Tiny WTiny SlruFacts TwoQFacts ArcFacts WTinyFacts
+  Heap HeapFacts HeapOps HeapRun HeapPrim HeapFrame HeapMulti HeapSlruDef HeapSlru
+  HeapTwoQDef HeapTwoQ HeapArcDef HeapArc HeapWTinyDef HeapWTiny HeapIterDef HeapIter HeapClone.
 From Coq Require Import List Arith Permutation.
 Import ListNotations.
 
@@ -112,18 +116,109 @@ Theorem C03_put_or_evict : forall h F1 q l a ek ev F2 fl1 n k v fl2,
 Proof. exact fam_put_or_evict_full. Qed.
 
 (** SegmentedCache on the heap: every operation refines Slru.v and keeps the two-list family *)
-Theorem C03_slru_step : forall h s ls o,
-  RS h s ls -> slru_inv ls ->
-  exists h' s' ls' r, hs_step h s o = HOk (h', s', r) /\ ls_step ls o = Ok (ls', r) /\ RS h' s' ls' /\ slru_inv ls'.
+Theorem C03_slru_step : forall Fx h s ls o,
+  RS Fx h s ls -> slru_inv ls ->
+  exists h' s' ls' r, hs_step h s o = HOk (h', s', r) /\ ls_step ls o = Ok (ls', r) /\ RS Fx h' s' ls' /\ slru_inv ls'.
 Proof. exact slru_step_refines. Qed.
 
 Theorem C03_slru_history : forall pc fc os,
   (1 <= pc)%nat -> (1 <= fc)%nat ->
   exists h s ls outs h',
     hs_run (fst (hs_new heap0 pc fc)) (snd (hs_new heap0 pc fc)) os = HOk (h, s, outs) /\
-    ls_run (slru_new pc fc) os = Ok (ls, outs) /\ RS h s ls /\
+    ls_run (slru_new pc fc) os = Ok (ls, outs) /\ RS [] h s ls /\
     hs_drop h s = HOk h' /\ (forall a, cells h' a = Free).
 Proof. exact slru_history_safe. Qed.
+
+(** TwoQueueCache on the heap (three lists; ghost hits revive the ghost node, the node the ghost list
+    pushes out is unboxed exactly once) *)
+Theorem C03_twoq_step : forall h s ls o,
+  RQ h s ls -> twoq_inv ls ->
+  exists h' s' ls' r, ht_step h s o = HOk (h', s', r) /\ lq_step ls o = Ok (ls', r) /\ RQ h' s' ls' /\ twoq_inv ls'.
+Proof. exact twoq_step_refines. Qed.
+
+Theorem C03_twoq_history : forall size rs es os,
+  (1 <= size)%nat -> (1 <= es)%nat ->
+  exists h s ls outs h',
+    ht_run (fst (ht_new heap0 size rs es)) (snd (ht_new heap0 size rs es)) os = HOk (h, s, outs) /\
+    lq_run (twoq_new size rs es) os = Ok (ls, outs) /\ RQ h s ls /\
+    ht_drop h s = HOk h' /\ (forall a, cells h' a = Free).
+Proof. exact twoq_history_safe. Qed.
+
+(** AdaptiveCache on the heap (four lists) *)
+Theorem C03_arc_step : forall h s ls o,
+  RA h s ls [] -> arc_inv ls ->
+  exists h' s' ls' r, ha_step h s o = HOk (h', s', r) /\ la_step ls o = Ok (ls', r) /\ RA h' s' ls' [] /\ arc_inv ls'.
+Proof. exact arc_step_refines. Qed.
+
+Theorem C03_arc_history : forall size os,
+  (1 <= size)%nat ->
+  exists h s ls outs h',
+    ha_run (fst (ha_new heap0 size)) (snd (ha_new heap0 size)) os = HOk (h, s, outs) /\
+    la_run (arc_new size) os = Ok (ls, outs) /\ RA h s ls [] /\
+    ha_drop h s = HOk h' /\ (forall a, cells h' a = Free).
+Proof. exact arc_history_safe. Qed.
+
+(** WTinyLFUCache on the heap (window list + segmented cache in one heap; the estimator is plain data) *)
+Theorem C03_wtiny_step : forall h s ls o,
+  RW h s ls -> wt_inv ls ->
+  exists h' s' ls' r, hw_step h s o = HOk (h', s', r) /\ lw_step ls o = Ok (ls', r) /\ RW h' s' ls' /\ wt_inv ls'.
+Proof. exact wtiny_step_refines. Qed.
+
+Theorem C03_wtiny_history : forall t kh wc pc fc os,
+  wt_inv (mkWTiny t (lru_new wc false) (slru_new pc fc) kh) ->
+  exists h s ls outs h',
+    hw_run (fst (hw_new heap0 t kh wc pc fc)) (snd (hw_new heap0 t kh wc pc fc)) os = HOk (h, s, outs) /\
+    lw_run (mkWTiny t (lru_new wc false) (slru_new pc fc) kh) os = Ok (ls, outs) /\ RW h s ls /\
+    hw_drop h s = HOk h' /\ (forall a, cells h' a = Free).
+Proof. exact wtiny_history_safe. Qed.
+
+(** the iterators: every dereference of any script of next / next_back calls (and writes through the
+    references of a mutable iterator) hits a linked node, the nodes handed out are pairwise distinct, the
+    items are those of the layer-L iterator *)
+Theorem C03_iter : forall h q l lru_order rs,
+  wf h q l ->
+  exists it h' it' ads l',
+    h_iter h q = HOk it /\
+    h_it_run h it lru_order rs = HOk (h', it', fst (fst (it_run lru_order rs (entries l))), ads) /\
+    wf h' q l' /\ addrs l' = addrs l /\ NoDup ads /\ (forall a, In a ads -> In a (addrs l)) /\
+    fresh h' = fresh h /\ (forall x, ~ In x (addrs l) -> cells h' x = cells h x) /\
+    entries l' = apply_writes (snd (it_run lru_order rs (entries l))) (entries l).
+Proof. exact h_iter_safe. Qed.
+
+(** ... and over one list of a composite cache (2Q, ARC, the segments of an SLRU): the other lists and the
+    nodes in flight are untouched, the family stays separated *)
+Theorem C03_family_iter : forall h F1 q l F2 fl lru_order rs,
+  fam h (F1 ++ (q, l) :: F2) fl ->
+  exists it h' it' ads l',
+    h_iter h q = HOk it /\
+    h_it_run h it lru_order rs = HOk (h', it', fst (fst (it_run lru_order rs (entries l))), ads) /\
+    fam h' (F1 ++ (q, l') :: F2) fl /\ addrs l' = addrs l /\ NoDup ads /\ (forall a, In a ads -> In a (addrs l)) /\
+    entries l' = apply_writes (snd (it_run lru_order rs (entries l))) (entries l) /\
+    (forall x, ~ In x (addrs l) -> cells h' x = cells h x).
+Proof. exact fam_iter. Qed.
+
+(** [Clone]: the clone of a list lives in the same heap on freshly allocated nodes (two new sentinels, one new
+    node per entry), the original and every other list of the family are untouched, the entries are equal *)
+Theorem C03_family_clone : forall h F q l,
+  fam h F [] -> In (q, l) F -> (length l <= hcap q)%nat ->
+  exists h' q' l', h_clone h q = HOk (h', q') /\
+    fam h' ((q', l') :: F) [] /\ entries l' = entries l /\ hcap q' = hcap q /\
+    hhead q' = fresh h /\ htail q' = S (fresh h) /\ (fresh h <= fresh h')%nat.
+Proof. exact h_clone_in. Qed.
+
+(** [x = x.clone()] refines the identity of layer L: once the original is dropped the clone alone owns the heap *)
+Theorem C03_clone : forall h q s,
+  R h q s -> (length (items s) <= cap s)%nat ->
+  exists h' q', h_clone_replace h q = HOk (h', q') /\ R h' q' s /\ hhead q' = fresh h /\ htail q' = S (fresh h).
+Proof. exact clone_refines. Qed.
+
+(** every history of public calls and clones of a RawLRU, then the final drop *)
+Theorem C03_clone_history : forall c cb os,
+  exists h q h',
+    hcrun (fst (hnew heap0 c)) (snd (hnew heap0 c)) os = HOk (h, q, snd (lcrun (lru_new c cb) os)) /\
+    R h q (fst (lcrun (lru_new c cb) os)) /\
+    h_drop h q = HOk h' /\ (forall a, cells h' a = Free).
+Proof. exact clone_history_safe. Qed.
 
 Print Assumptions C03_detach.
 Print Assumptions C03_attach.
@@ -138,3 +233,14 @@ Print Assumptions C03_remove_ent.
 Print Assumptions C03_put_or_evict.
 Print Assumptions C03_slru_step.
 Print Assumptions C03_slru_history.
+Print Assumptions C03_twoq_step.
+Print Assumptions C03_twoq_history.
+Print Assumptions C03_arc_step.
+Print Assumptions C03_arc_history.
+Print Assumptions C03_wtiny_step.
+Print Assumptions C03_wtiny_history.
+Print Assumptions C03_iter.
+Print Assumptions C03_family_iter.
+Print Assumptions C03_family_clone.
+Print Assumptions C03_clone.
+Print Assumptions C03_clone_history.
